@@ -104,6 +104,22 @@ def m_cell_set(ex, f, a): ex.deref(a[0]).v = a[1]; return UNIT
 def m_cell_replace(ex, f, a): c = ex.deref(a[0]); old = c.v; c.v = a[1]; return old
 
 # ----------------------------------------------------------------------------- Option / Result
+@pattern(r'^(f64|core::f64)::<impl f64>::(fract|trunc|is_finite|is_nan|abs|floor|ceil)$|^std::f64::<impl f64>::(fract|trunc|floor|ceil|abs)$')
+def m_f64_concrete(ex, f, a):
+    """concrete f64 helpers (Python floats are IEEE doubles); symbolic floats are not supported here"""
+    import math
+    v = a[0]
+    while isinstance(v, Ref): v = v.get()
+    if not isinstance(v, float): raise Unsupported('f64 method on a non-concrete float')
+    op = f.rsplit('::', 1)[1]
+    if op == 'is_finite': return math.isfinite(v)
+    if op == 'is_nan': return v != v
+    if not math.isfinite(v): return v if op != 'fract' else float('nan')
+    if op == 'trunc': return float(math.trunc(v))
+    if op == 'fract': return v - float(math.trunc(v))
+    if op == 'abs': return abs(v)
+    return float(math.floor(v)) if op == 'floor' else float(math.ceil(v))
+
 @pattern(r'ParseIntError::kind$')
 def m_parse_int_error_kind(ex, f, a):
     """core::num::IntErrorKind { Empty, InvalidDigit, PosOverflow, NegOverflow, Zero }; the str::parse model records which one"""
